@@ -97,7 +97,7 @@ theorem step_wake {s : St} (k : Nat) (h : WakeInv s) : WakeInv (step s k) := by
 theorem run_wake {s : St} (sched : List Nat) (h : WakeInv s) : WakeInv (run s sched) :=
   run_invariant (fun _ k h => step_wake k h) h sched
 
-theorem init_wake (elt wl : Bool) (tbl) (dtbl) (pre) (progs) : WakeInv (init elt wl tbl dtbl pre progs) := by
+theorem init_wake (elt wl : Bool) (tbl) (dtbl) (pre) (again) (progs) : WakeInv (init elt wl tbl dtbl pre again progs) := by
   refine ⟨?_, ?_, ?_, ?_⟩
   · intro _ hp; simp [init] at hp
   · intro h; cases elt <;> simp [init] at h
